@@ -477,7 +477,11 @@ func isInterior(ft types.Type) bool {
 		return false
 	}
 	for i := 0; i < s.NumFields(); i++ {
-		if p, ok := s.Field(i).Type().(*types.Pointer); ok {
+		ft := s.Field(i).Type()
+		if sl, ok := ft.(*types.Slice); ok {
+			ft = sl.Elem() // a tower of pointers to nodes of the same type
+		}
+		if p, ok := ft.(*types.Pointer); ok {
 			if pn, ok := p.Elem().(*types.Named); ok && pn.Origin() == n.Origin() {
 				return true
 			}
